@@ -160,7 +160,18 @@ def table_cases(tier):
     yield "dup/party-vs-table", skeleton(parts), "duplicate"
 
 
+def no_reference_cases(tier):
+    """zero referencing elements: a duplicated id is still reported; without one, expand is a no-op"""
+    for dup in (True, False):
+        parts = [referenced("creator", 0, 0), referenced("contact", 0 if dup else 1, 1)]
+        yield f"noref/dup={dup}", skeleton(parts), ("duplicate" if dup else None)
+    parts = [referenced("creator", 0, 1)]
+    parts[0][3][1][2]["id"] = "id0"           # nested address carries the same id as its creator
+    yield "noref/dup-nested", skeleton(parts + [["contact", None, {}, PARTY_VARIANTS[0](8)]]), "duplicate"
+
+
 def all_cases(tier):
+    yield from no_reference_cases(tier)
     yield from party_cases(tier)
     yield from role_cases(tier)
     yield from table_cases(tier)
